@@ -447,6 +447,7 @@ func c26(c *vc.Ctx) {
 		c.Extra["seeds_disagreeing_unmutated_examples"] = seedDisagree[:min(len(seedDisagree), 40)]
 	}
 	seedMu.Unlock()
+	os.RemoveAll(root) // Finish exits the process: the deferred removal above would not run
 	c.Finish(complete)
 }
 
